@@ -15,6 +15,7 @@ from types import SimpleNamespace
 
 from vlib import core
 
+STAT_LINES = {"__ambiguous", "__no_feature", "__not_aligned", "__usable", "__unassigned"}     # a feature id may start with "__" as well
 LEVEL = "exploration"
 
 
@@ -355,7 +356,7 @@ def l3_case(args):
             exp[(key(name), g)] = exp.get((key(name), g), 0.0) + 1.0
             tot[key(name)] = tot.get(key(name), 0.0) + 1.0
         h0, ung = run.parse_counts(run.find(out, "OUT", ".%s_counts.tsv" % level))
-        ung = {k: float(v[0][0]) for k, v in (ung or {}).items() if not k.startswith("__")}
+        ung = {k: float(v[0][0]) for k, v in (ung or {}).items() if not k in STAT_LINES}
         if {k: v for k, v in ung.items() if v} != tot:
             errs.append(("ungrouped-wrong", "%s ungrouped counts %s expected %s" % (level, ung, tot)))
         mat = lin = None
@@ -429,11 +430,11 @@ def l3b_case(args):
     for level in ("gene", "transcript", "transcript_model"):
         try:
             h0, ung = run.parse_counts(run.find(out, "OUT", ".%s_counts.tsv" % level))
-            ung = {k: float(v[0][0]) for k, v in (ung or {}).items() if not k.startswith("__")}
+            ung = {k: float(v[0][0]) for k, v in (ung or {}).items() if not k in STAT_LINES}
             header, rows = run.parse_counts(run.find(out, "OUT", ".%s_grouped_counts.tsv" % level))
             sums = {}
             for ft, vals in (rows or {}).items():
-                if ft.startswith("__"):
+                if ft in STAT_LINES:
                     continue
                 sums[ft] = sums.get(ft, 0.0) + sum(float(x) for v in vals for x in v)
             lin = {}
@@ -492,11 +493,11 @@ def l3c_case(args):
     for level in ("gene", "transcript"):
         try:
             h0, ung = run.parse_counts(run.find(out, "OUT", ".%s_counts.tsv" % level))
-            ung = {k: float(v[0][0]) for k, v in (ung or {}).items() if not k.startswith("__")}
+            ung = {k: float(v[0][0]) for k, v in (ung or {}).items() if not k in STAT_LINES}
             header, rows = run.parse_counts(run.find(out, "OUT", ".%s_grouped_counts.tsv" % level))
             mat = {}
             for ft, vals in (rows or {}).items():
-                if ft.startswith("__"):
+                if ft in STAT_LINES:
                     continue
                 for v in vals:
                     for gname, x in zip(header[1:], v):
@@ -581,7 +582,7 @@ def l3d_case(args):
                 exp[("T1", "cellX")] = exp.get(("T1", "cellX"), 0.0) + 1.0
         got = {}
         for f, v in rc_.items():
-            if f.startswith("__"):
+            if f in STAT_LINES:
                 continue
             for gname, x in zip(hc[1:], v[0]):
                 if float(x):
@@ -589,12 +590,12 @@ def l3d_case(args):
         if got != exp:
             errs.append(("grouped-counts:%s" % level, "%s grouped counts %s, expected %s" % (level, sorted(got.items()), sorted(exp.items()))))
         for gi, g in enumerate(hc[1:]):
-            col = {f: float(v[0][gi]) for f, v in rc_.items() if not f.startswith("__")}
+            col = {f: float(v[0][gi]) for f, v in rc_.items() if not f in STAT_LINES}
             tot = sum(col.values())
             if tot <= 0 or g not in ht[1:]:
                 continue
             ti = ht[1:].index(g)
-            tpm = {f: float(v[0][ti]) for f, v in rt.items() if not f.startswith("__")}
+            tpm = {f: float(v[0][ti]) for f, v in rt.items() if not f in STAT_LINES}
             bad = [f for f in col if abs(tpm.get(f, 0.0) - col[f] * 1e6 / tot) > 0.5]
             if bad or abs(sum(tpm.values()) - 1e6) > 5:
                 errs.append(("grouped-tpm:%s" % level, "%s grouped TPM, group %s: counts %s (total %.2f), TPM %s (sum %.1f)" %
